@@ -55,11 +55,40 @@ inline double support(const Surf& s, const MeshData* mesh, const Vec3& d) {
     }
 }
 
+// ---- brute-force queries on a closed triangle mesh (mesh frame): nearest surface point, inside by ray parity (3 rays)
+inline Vec3 closestPointOnTriangle(const Vec3& p, const Vec3& a, const Vec3& b, const Vec3& c) {
+    Vec3 ab = b - a, ac = c - a, ap = p - a; Real d1 = ~ab * ap, d2 = ~ac * ap; if (d1 <= 0 && d2 <= 0) return a;
+    Vec3 bp = p - b; Real d3 = ~ab * bp, d4 = ~ac * bp; if (d3 >= 0 && d4 <= d3) return b;
+    Real vc = d1 * d4 - d3 * d2; if (vc <= 0 && d1 >= 0 && d3 <= 0) return a + (d1 / (d1 - d3)) * ab;
+    Vec3 cp = p - c; Real d5 = ~ab * cp, d6 = ~ac * cp; if (d6 >= 0 && d5 <= d6) return c;
+    Real vb = d5 * d2 - d1 * d6; if (vb <= 0 && d2 >= 0 && d6 <= 0) return a + (d2 / (d2 - d6)) * ac;
+    Real va = d3 * d6 - d5 * d4; if (va <= 0 && (d4 - d3) >= 0 && (d5 - d6) >= 0) return b + ((d4 - d3) / ((d4 - d3) + (d5 - d6))) * (c - b);
+    Real den = 1 / (va + vb + vc); return a + (vb * den) * ab + (vc * den) * ac;
+}
+struct MeshQuery { Vec3 nearest; Real dist = 0; bool inside = false, ambiguous = false; };
+inline MeshQuery queryMesh(const MeshData& m, const Vec3& p) {
+    MeshQuery q; q.dist = Infinity;
+    static const Vec3 dirs[3] = {Vec3(0.5773, 0.1931, 0.7934), Vec3(-0.3127, 0.8911, -0.3287), Vec3(0.2113, -0.6241, -0.7522)};
+    int cross[3] = {0, 0, 0};
+    for (int f = 0; f < m.nFaces(); ++f) {
+        const Vec3& a = m.V[m.F[3*f]]; const Vec3& b = m.V[m.F[3*f+1]]; const Vec3& c = m.V[m.F[3*f+2]];
+        Vec3 n = closestPointOnTriangle(p, a, b, c); Real d = (n - p).norm(); if (d < q.dist) { q.dist = d; q.nearest = n; }
+        Vec3 e1 = b - a, e2 = c - a, sv = p - a;
+        for (int k = 0; k < 3; ++k) { Vec3 h = dirs[k] % e2; Real det = ~e1 * h; if (std::fabs(det) < 1e-14) continue; Real fi = 1 / det, u = fi * (~sv * h); if (u < 0 || u > 1) continue;
+            Vec3 qq = sv % e1; Real v = fi * (~dirs[k] * qq); if (v < 0 || u + v > 1) continue; if (fi * (~e2 * qq) > 0) ++cross[k]; }
+    }
+    int in = (cross[0] & 1) + (cross[1] & 1) + (cross[2] & 1); q.inside = in >= 2; q.ambiguous = (in == 1 || in == 2);
+    return q;
+}
+
 struct Scenario {
     int kind = HC; mbgen::ModelSpec spec; int nb = 1;
     int A = 0, B = 1, D = -1;            // bodies of base, probe, second probe (-1: none)
     Surf s1, s2, s3; bool swapOrder = false;
-    MeshData mesh; bool meshOnBase = false;   // the (single) mesh of EF scenarios
+    MeshData mesh; bool meshOnBase = false;   // the mesh of EF scenarios (the BASE mesh in mesh-on-mesh scenarios)
+    MeshData mesh2; bool meshMesh = false;    // mesh-on-mesh (ElasticFoundationForce): mesh2 = probe mesh
+    bool paramBase = false, paramProbe = false;   // which surfaces get ElasticFoundationForce::setBodyParameters
+    const MeshData& meshOf(bool probe) const { return (probe && meshMesh) ? mesh2 : mesh; }
     double vt = 0.01;
     double depth2 = 0.01, depth3 = 0.01; Rotation R12, R13; Vec3 lat2 = Vec3(0), lat3 = Vec3(0); Vec3 dir2 = Vec3(0, 0, 1), dir3 = Vec3(0, 0, -1);
     int velMode = 0; double xdotT = 1, slipT = 0.01, slipAng = 0; Vec3 spinT = Vec3(0);
@@ -72,6 +101,7 @@ struct Scenario {
         o << "element=" << kindName(kind) << " A=" << A << " B=" << B << " D=" << D << " swap=" << swapOrder << " vt=" << vt << "\n";
         auto sd = [&](const char* nm, const Surf& s) { o << " " << nm << ": " << shapeName(s.shape) << " R=" << s.R << " dims=" << s.dims << " meshRes=" << s.meshRes << " E=" << s.mat.E << " c=" << s.mat.c << " us=" << s.mat.us << " ud=" << s.mat.ud << " uv=" << s.mat.uv << " h=" << s.mat.h << "\n"; };
         sd("base", s1); sd("probe", s2); if (D >= 0) sd("probe2", s3);
+        if (meshMesh) o << " mesh-on-mesh: base faces=" << mesh.nFaces() << " probe faces=" << mesh2.nFaces() << " parameters on base=" << paramBase << " probe=" << paramProbe << "\n";
         o << " designed depth=" << depth2 << " depth3=" << depth3 << " lat2=" << lat2 << " dir2=" << dir2 << " velMode=" << velMode << " xdotT=" << xdotT << " slipT=" << slipT << " slipAng=" << slipAng << " spinT=" << spinT << "\n";
         if (kind == Smooth) o << " cf=" << cf << " bd=" << bd << " bv=" << bv << "\n";
         if (kind == ExpSpring) o << " d0=" << d0 << " d1=" << d1 << " d2=" << d2 << " cz=" << cz << " maxFz=" << maxFz << " kxy=" << kxy << " cxy=" << cxy << " mus=" << mus << " muk=" << muk << " vSettle=" << vSettle << " setAuto=" << setAuto << " sliding=" << sliding << " p0off=" << p0off << " station=" << station << " pP=" << pP << "\n";
@@ -132,7 +162,7 @@ inline Scenario decode(const pbt::Tape& t, unsigned kindMask = (1u << NumKinds) 
     Material m3 = readMaterial(g);
     // ---- surfaces (segment 1)
     pbt::Reader r(t[1]);
-    int pairSel = r.pick(6);
+    uint32_t wPair = r.w(); int pairSel = int(wPair % 6u);
     Material m1 = readMaterial(r), m2 = readMaterial(r);
     if (r.chance(1, 4)) m2.c = m1.c;             // equal dissipation: combined value independent of the weighting
     double R1 = r.uniform(0.05, 1.5), R2 = r.uniform(0.05, 1.5), R3 = r.uniform(0.05, 1.5);
@@ -148,8 +178,14 @@ inline Scenario decode(const pbt::Tape& t, unsigned kindMask = (1u << NumKinds) 
     switch (sc.kind) {
         case HC: case HertzCirc: sc.s1.shape = (pairSel % 2 == 0) ? ShHalfSpace : ShSphere; sc.s2.shape = ShSphere; break;
         case EFF: case CcsEF: { int p = pairSel % 3; deep = true;
+            if (sc.kind == EFF && pairSel >= 3) {      // mesh on mesh (1/2 of the ElasticFoundationForce scenarios); 3/4 of them with parameters on BOTH meshes
+                Vec3 dims1(std::min(R1, 1.2), std::min(R3, 1.2), std::min(0.5 * (R1 + R3), 1.2));
+                sc.s1.shape = ShMesh; sc.s2.shape = ShMesh; sc.meshOnBase = true; sc.meshMesh = true; sc.s1.dims = dims1;
+                sc.mesh = makeOcta(meshRes, dims1); sc.mesh2 = makeOcta(1 + int((wPair / 24u) % 2u), dims2);
+                int who = int((wPair / 6u) % 8u); sc.paramBase = who != 1; sc.paramProbe = who != 2;      // 1: probe only; 2: base only; else both (3/4)
+                break; }
             if (p == 0) { sc.s1.shape = ShHalfSpace; sc.s2.shape = ShMesh; } else if (p == 1) { sc.s1.shape = ShSphere; sc.s2.shape = ShMesh; } else { sc.s1.shape = ShMesh; sc.s2.shape = ShSphere; sc.meshOnBase = true; }
-            sc.mesh = makeOcta(meshRes, dims2); break; }
+            sc.mesh = makeOcta(meshRes, dims2); sc.paramBase = sc.meshOnBase; sc.paramProbe = !sc.meshOnBase; break; }
         case HertzEll: sc.s1.shape = ShHalfSpace; sc.s2.shape = ShEllipsoid; break;
         case CcsBrick: sc.s1.shape = ShHalfSpace; sc.s2.shape = ShBrick; break;
         case Smooth: sc.s1.shape = ShHalfSpace; sc.s2.shape = ShSphere; break;
@@ -157,8 +193,12 @@ inline Scenario decode(const pbt::Tape& t, unsigned kindMask = (1u << NumKinds) 
     }
     double size2 = sc.s2.shape == ShSphere ? R2 : std::min(dims2[0], std::min(dims2[1], dims2[2]));
     if (sc.s1.shape == ShSphere) size2 = std::min(size2, R1);
-    if (sc.s1.shape == ShMesh) size2 = std::min(size2, std::min(dims2[0], std::min(dims2[1], dims2[2])));
+    if (sc.s1.shape == ShMesh) size2 = std::min(size2, std::min(sc.s1.dims[0], std::min(sc.s1.dims[1], sc.s1.dims[2])));
+    if (sc.meshMesh) size2 = std::min(dims2[0], std::min(dims2[1], dims2[2])) + std::min(sc.s1.dims[0], std::min(sc.s1.dims[1], sc.s1.dims[2]));   // centroids of BOTH meshes must get inside the other one
     sc.depth2 = readDepth(r, size2, deep);
+    if (sc.meshMesh) {   // partial penetration only: the surfaces must intersect (a mesh completely inside the other one has no intersecting faces and is not a contact for the collision detector)
+        double cap = 1.2 * std::min(std::min(dims2[0], std::min(dims2[1], dims2[2])), std::min(sc.s1.dims[0], std::min(sc.s1.dims[1], sc.s1.dims[2])));
+        if (sc.depth2 > cap) sc.depth2 = cap; }
     // ---- element parameters + second probe (segment 2)
     pbt::Reader e(t[2]);
     bool wantD = e.chance(1, 2) && sc.kind == HC && sc.nb >= 2;
@@ -183,7 +223,7 @@ inline Scenario decode(const pbt::Tape& t, unsigned kindMask = (1u << NumKinds) 
       sc.pP = Vec3(e.uniform(-1, 1), e.uniform(-1, 1), sc.d0 + dz); }
     // rebound-threshold velocity class: 1 + 3/2 c xdot ~ 0 (HC family), 1 + c xdot ~ 0 (EF, brick), 1 - cz vz ~ 0 (exp)
     if (sc.velMode == 2) {
-        double c = sc.kind == ExpSpring ? sc.cz : (sc.kind == EFF ? (sc.meshOnBase ? m1.c : m2.c) : 0.5 * (m1.c + m2.c));
+        double c = sc.kind == ExpSpring ? sc.cz : (sc.kind == EFF && !sc.meshMesh ? (sc.meshOnBase ? m1.c : m2.c) : 0.5 * (m1.c + m2.c));
         if (sc.kind == Smooth) c = m1.c;
         double fac = (sc.kind == HC || sc.kind == HertzCirc || sc.kind == HertzEll || sc.kind == Smooth) ? 1.5 : 1.0;
         if (c > 1e-3) sc.xdotT = -(1 + reboundDelta) / (fac * c);
@@ -214,6 +254,7 @@ struct Scene {
     std::unique_ptr<ExponentialSpringForce> exp; std::unique_ptr<SmoothSphereHalfSpaceForce> smooth;
     Transform X_BS2, X_DS3, X_GP; int idx1 = 0, idx2 = 1, idx3 = 2;   // surface indices in the GeneralContactSubsystem set
     bool velTargeted = false;
+    mutable Vector cacheQ; mutable Real cacheMargin = 0;   // maxSmoothStep(): onset margin of a mesh-on-mesh pair at configuration cacheQ
     State& state() { return m->state; }
     const MobilizedBody& body(int i) const { return m->mb[i]; }
     // body forces of the element alone (state realized to Dynamics)
@@ -235,14 +276,13 @@ inline ContactGeometry makeGeometry(const Surf& s, const MeshData& mesh) {
 }
 
 // designed pose of a probe surface frame in the base surface frame
-inline Transform designPose(const Surf& base, const Surf& probe, const MeshData& mesh, bool meshOnBase, const Rotation& R1p, const Vec3& lat, const Vec3& dir, double depth) {
+inline Transform designPose(const Surf& base, const Surf& probe, const MeshData& baseMesh, const MeshData& probeMesh, const Rotation& R1p, const Vec3& lat, const Vec3& dir, double depth) {
     if (base.shape == ShHalfSpace) {                 // half-space occupies x > 0 of its frame
-        Vec3 dIn = ~R1p * Vec3(1, 0, 0); double h = support(probe, &mesh, dIn);
+        Vec3 dIn = ~R1p * Vec3(1, 0, 0); double h = support(probe, &probeMesh, dIn);
         return Transform(R1p, Vec3(depth - h, lat[1], lat[2]));
     }
-    Vec3 dS = ~R1p * Vec3(-dir); double hp = support(probe, &mesh, dS);
-    double hb = base.shape == ShSphere ? base.R : support(base, &mesh, dir);
-    (void)meshOnBase;
+    Vec3 dS = ~R1p * Vec3(-dir); double hp = support(probe, &probeMesh, dS);
+    double hb = base.shape == ShSphere ? base.R : support(base, &baseMesh, dir);
     return Transform(R1p, (hb + hp - depth) * dir);
 }
 
@@ -254,9 +294,9 @@ inline std::unique_ptr<Scene> build(const Scenario& sc) {
         X_GA = m0.mb[sc.A].getBodyTransform(m0.state); X_GB = m0.mb[sc.B].getBodyTransform(m0.state); if (sc.D >= 0) X_GD = m0.mb[sc.D].getBodyTransform(m0.state); }
     const Transform X_GS1 = X_GA * sc.s1.X_BS;
     if (sc.kind != ExpSpring) {
-        Transform X12 = designPose(sc.s1, sc.s2, sc.mesh, sc.meshOnBase, sc.R12, sc.lat2, sc.dir2, sc.depth2);
+        Transform X12 = designPose(sc.s1, sc.s2, sc.mesh, sc.meshOf(true), sc.R12, sc.lat2, sc.dir2, sc.depth2);
         Transform T = X_GS1 * X12; S->X_BS2 = ~X_GB * T;
-        if (sc.D >= 0) { Transform X13 = designPose(sc.s1, sc.s3, sc.mesh, false, sc.R13, sc.lat3, sc.dir3, sc.depth3); Transform T3 = X_GS1 * X13; S->X_DS3 = ~X_GD * T3; }
+        if (sc.D >= 0) { Transform X13 = designPose(sc.s1, sc.s3, sc.mesh, sc.mesh, sc.R13, sc.lat3, sc.dir3, sc.depth3); Transform T3 = X_GS1 * X13; S->X_DS3 = ~X_GD * T3; }
     } else {
         Vec3 pG = X_GB * sc.station; S->X_GP = Transform(sc.R_GP, pG - sc.R_GP * sc.pP);
     }
@@ -267,7 +307,7 @@ inline std::unique_ptr<Scene> build(const Scenario& sc) {
         S->gcs.reset(new GeneralContactSubsystem(m.sys)); S->set = S->gcs->createContactSet();
         std::vector<const Surf*> order; if (sc.swapOrder) { order = {&s2, &sc.s1}; S->idx1 = 1; S->idx2 = 0; } else { order = {&sc.s1, &s2}; S->idx1 = 0; S->idx2 = 1; }
         if (sc.D >= 0) order.push_back(&s3);
-        for (auto* s : order) S->gcs->addBody(S->set, m.mb[s->body], makeGeometry(*s, sc.mesh), s->X_BS);
+        for (auto* s : order) S->gcs->addBody(S->set, m.mb[s->body], makeGeometry(*s, sc.meshOf(s == &s2)), s->X_BS);
         if (sc.kind == HC) {
             HuntCrossleyForce hc(m.forces, *S->gcs, S->set);
             hc.setBodyParameters(ContactSurfaceIndex(S->idx1), sc.s1.mat.E, sc.s1.mat.c, sc.s1.mat.us, sc.s1.mat.ud, sc.s1.mat.uv);
@@ -276,8 +316,8 @@ inline std::unique_ptr<Scene> build(const Scenario& sc) {
             hc.setTransitionVelocity(sc.vt); S->force = hc; S->hasForce = true;
         } else {
             ElasticFoundationForce ef(m.forces, *S->gcs, S->set);
-            const Surf& ms = sc.meshOnBase ? sc.s1 : sc.s2;
-            ef.setBodyParameters(ContactSurfaceIndex(sc.meshOnBase ? S->idx1 : S->idx2), ms.mat.E, ms.mat.c, ms.mat.us, ms.mat.ud, ms.mat.uv);
+            if (sc.paramBase) ef.setBodyParameters(ContactSurfaceIndex(S->idx1), sc.s1.mat.E, sc.s1.mat.c, sc.s1.mat.us, sc.s1.mat.ud, sc.s1.mat.uv);
+            if (sc.paramProbe) ef.setBodyParameters(ContactSurfaceIndex(S->idx2), sc.s2.mat.E, sc.s2.mat.c, sc.s2.mat.us, sc.s2.mat.ud, sc.s2.mat.uv);
             ef.setTransitionVelocity(sc.vt); S->force = ef; S->hasForce = true;
         }
     } else if (sc.kind == HertzCirc || sc.kind == HertzEll || sc.kind == CcsEF || sc.kind == CcsBrick) {
@@ -314,7 +354,7 @@ inline std::unique_ptr<Scene> build(const Scenario& sc) {
         if (sc.kind == ExpSpring) { n = S->X_GP.R() * Vec3(0, 0, 1); C = XGB * sc.station; }
         else {
             Transform XS1 = kA.X * sc.s1.X_BS; Transform XS2 = XGB * S->X_BS2;
-            if (sc.s1.shape == ShHalfSpace) { n = -(XS1.R() * Vec3(1, 0, 0)); Vec3 dS = ~XS2.R() * (-n); Surf tmp = sc.s2; double h = support(tmp, &sc.mesh, dS); C = XS2.p() - (h - 0.5 * sc.depth2) * n; }
+            if (sc.s1.shape == ShHalfSpace) { n = -(XS1.R() * Vec3(1, 0, 0)); Vec3 dS = ~XS2.R() * (-n); Surf tmp = sc.s2; double h = support(tmp, &sc.meshOf(true), dS); C = XS2.p() - (h - 0.5 * sc.depth2) * n; }
             else { Vec3 d = XS2.p() - XS1.p(); n = d / d.norm(); double hb = sc.s1.shape == ShSphere ? sc.s1.R : support(sc.s1, &sc.mesh, ~XS1.R() * n); C = XS1.p() + (hb - 0.5 * sc.depth2) * n; }
         }
         Vec3 t1 = std::fabs(n[0]) < 0.9 ? Vec3(1, 0, 0) % n : Vec3(0, 1, 0) % n; t1 = t1 / t1.norm(); Vec3 t2 = n % t1;
@@ -356,7 +396,16 @@ inline Real maxSmoothStep(const Scenario& sc, const Scene& S, const State& w) {
     Transform X1 = kA.X * sc.s1.X_BS, X2 = kB.X * S.X_BS2;
     auto sphereDepth = [&](const Vec3& c, Real R) { return sc.s1.shape == ShHalfSpace ? R + ~(c - X1.p()) * (X1.R() * Vec3(1, 0, 0)) : sc.s1.R + R - (c - X1.p()).norm(); };
     Real size = 0;
-    if (sc.s1.shape == ShMesh || sc.s2.shape == ShMesh) {
+    if (sc.meshMesh) {   // every face centroid of either mesh against the surface of the other (brute force); depends on q only: cached
+        if (!(S.cacheQ.size() == w.getNQ() && (S.cacheQ - w.getQ()).normInf() == 0)) {
+            Real mg = Infinity; Transform X21 = ~X2 * X1, X12 = ~X1 * X2;
+            for (int f = 0; f < sc.mesh.nFaces(); ++f) mg = std::min(mg, queryMesh(sc.mesh2, X21 * sc.mesh.centroid(f)).dist);
+            for (int f = 0; f < sc.mesh2.nFaces(); ++f) mg = std::min(mg, queryMesh(sc.mesh, X12 * sc.mesh2.centroid(f)).dist);
+            S.cacheQ = w.getQ(); S.cacheMargin = mg;
+        }
+        margin = S.cacheMargin;
+        size = std::max(sc.s2.dims[0], std::max(sc.s2.dims[1], sc.s2.dims[2])) + std::max(sc.s1.dims[0], std::max(sc.s1.dims[1], sc.s1.dims[2])) + (X2.p() - X1.p()).norm();
+    } else if (sc.s1.shape == ShMesh || sc.s2.shape == ShMesh) {
         const Transform& XM = sc.meshOnBase ? X1 : X2; const Transform& XO = sc.meshOnBase ? X2 : X1; const Surf& os = sc.meshOnBase ? sc.s2 : sc.s1;
         for (int f = 0; f < sc.mesh.nFaces(); ++f) { Vec3 cg = XM * sc.mesh.centroid(f);
             Real inside = os.shape == ShSphere ? os.R - (cg - XO.p()).norm() : ~(cg - XO.p()) * (XO.R() * Vec3(1, 0, 0)); margin = std::min(margin, std::fabs(inside)); }
